@@ -567,7 +567,7 @@ func (t *diskTrack) writeBuffered(force bool) error {
 			}
 			// we've gone around 2^31 timestamps, force
 			// creating a new file to avoid wraparound
-			t.conn.close()
+			t.conn.closeFile()
 		}
 
 		var keyframe bool
@@ -736,7 +736,7 @@ func (conn *diskConn) initWriter(width, height uint32, track *diskTrack, ts uint
 		if width == conn.width && height == conn.height {
 			return nil
 		} else {
-			conn.close()
+			conn.closeFile()
 		}
 	}
 
@@ -811,7 +811,16 @@ func (conn *diskConn) initWriter(width, height uint32, track *diskTrack, ts uint
 	}
 
 	if track != nil {
-		track.adjustOrigin(ts)
+		if valid(track.origin) {
+			track.adjustOrigin(ts)
+		} else {
+			// we've just closed the previous file, which has
+			// reset all origins
+			track.setOrigin(
+				ts, time.Now(),
+				track.remote.Codec().ClockRate,
+			)
+		}
 	}
 
 	err := conn.open(extension)
